@@ -1,7 +1,7 @@
 """Call handling for pyvc: builtins, library-model methods, spec functions, contracts, lambda inlining."""
 import ast
 import z3
-from .core import Val, Raise, Unsupported, fresh_const
+from .core import Val, Raise, Unsupported, fresh_const, bound_var
 from .sorts import (sort_of, SExp, SList, Tree, S, Q, I, R, B, sv, SPEC_FUNCS, tval, divzero,
                     tree_refs_ok, leaf_of)
 from . import models, source
@@ -360,7 +360,7 @@ def spec_call(self, name, e, st):
         # forall_int(lambda i: body, lo, hi)   lo <= i < hi
         lam = e.args[0]
         var = lam.args.args[0].arg
-        i = fresh_const(var, I)
+        i = bound_var(var, I)
         s = st.fork()
         s.env[var] = Val(i, "int")
         lo, hi = one(e.args[1]), one(e.args[2])
@@ -374,11 +374,11 @@ def spec_call(self, name, e, st):
         var = lam.args.args[0].arg
         if name == "forall_ref":
             cls = e.args[1].value
-            x = fresh_const(var, I)
+            x = bound_var(var, I)
             s = st.fork()
             s.env[var] = Val(x, ("ref", cls))
         else:
-            x = fresh_const(var, S)
+            x = bound_var(var, S)
             s = st.fork()
             s.env[var] = Val(x, "str")
         body = one(lam.body, s)
@@ -464,7 +464,7 @@ def builtin_call(self, name, e, st):
             if it.ty == "pylist":
                 break
             s = self.read_field(st1, it, it.ty[1], "keys") if (is_ref(it.ty) and it.ty[1].startswith("dict_")) else self.seq_of(st1, it)
-            i = fresh_const("qi", I)
+            i = bound_var("qi", I)
             n = z3.Length(s.t)
             s2 = st1.assume(z3.And(i >= 0, i < n))
             elem = Val(s.t[i], s.ty[1])
@@ -499,7 +499,7 @@ def builtin_call(self, name, e, st):
                 ts = [self.truthy(x) for x in v.py]
                 yield st1, Val((z3.And(*ts) if ts else TRUE) if name == "all" else (z3.Or(*ts) if ts else FALSE), "bool")
             elif isinstance(v.ty, tuple) and v.ty[0] == "seq" and v.ty[1] == "bool":
-                i = fresh_const("qi", I)
+                i = bound_var("qi", I)
                 rng = z3.And(i >= 0, i < z3.Length(v.t))
                 if name == "all":
                     yield st1, Val(z3.ForAll([i], z3.Implies(rng, v.t[i])), "bool")
@@ -709,7 +709,7 @@ def method_call(self, st, base, attr, args, node):
                 return
             if attr == "values" and not args:
                 vs = fresh_const("vals", z3.SeqSort(sort_of(mp.ty[2])))
-                i = fresh_const("vi", I)
+                i = bound_var("vi", I)
                 s = st.assume(z3.Length(vs) == z3.Length(ks.t))
                 s = s.assume(z3.ForAll([i], z3.Implies(z3.And(i >= 0, i < z3.Length(ks.t)), vs[i] == z3.Select(mp.t, ks.t[i])), patterns=[vs[i]]))
                 ety = ("ref", models.CLASSES[cls].get("elem") or self.c.get("dict_values", {}).get(cls, "opaque")) if mp.ty[2] == "int" else mp.ty[2]
@@ -722,7 +722,7 @@ def method_call(self, st, base, attr, args, node):
                 # unspecified (only membership and lookups are used by the code under contract)
                 nk = self.read_field(st, args[0], args[0].ty[1], "keys")
                 nm = self.read_field(st, args[0], args[0].ty[1], "map")
-                k = fresh_const("uk", sort_of(ks.ty[1]))
+                k = bound_var("uk", sort_of(ks.ty[1]))
                 newkeys = fresh_const("ukeys", ks.t.sort())
                 s = st.assume(z3.ForAll([k], z3.Contains(newkeys, z3.Unit(k)) == z3.Or(z3.Contains(ks.t, z3.Unit(k)), z3.Contains(nk.t, z3.Unit(k)))))
                 newmap = z3.Lambda([k], z3.If(z3.Contains(nk.t, z3.Unit(k)), z3.Select(nm.t, k), z3.Select(mp.t, k)))
@@ -777,7 +777,7 @@ def method_call(self, st, base, attr, args, node):
         x = self.coerce(args[0], base.ty[1]).t
         new = z3.Concat(base.t, z3.Unit(x))
         # sound facts about append, stated explicitly so that quantified invariants over indices instantiate
-        k = fresh_const("k", I)
+        k = bound_var("k", I)
         n0 = z3.Length(base.t)
         s.conds.append(z3.Length(new) == n0 + 1)
         s.conds.append(new[n0] == x)
